@@ -124,7 +124,14 @@ Dups == [
   thisblock  |-> <<SDecl(y, EObj(<<Pair(EStr(<<109>>), EFunc(<<>>, FALSE, <<SBlock(<<SDecl(EVar(N_this), EInt(1)), SPrint(EVar(N_this))>>)>>))>>)),
                    SExpr(ECall(EProp(y, <<109>>), <<>>))>>,
   restsame   |-> <<SPrint(EInt(1)), SDecl(EPatRest(<<x, x>>), EList(<<EInt(1), EInt(2)>>))>>,
-  objrestsame |-> <<SPrint(EInt(1)), SDecl(EObj(<<Short(x), PCollect(x)>>), EObj(<<Pair(EStr(NX), EInt(1))>>))>>
+  objrestsame |-> <<SPrint(EInt(1)), SDecl(EObj(<<Short(x), PCollect(x)>>), EObj(<<Pair(EStr(NX), EInt(1))>>))>>,
+  \* `_` as the collector of a pattern or of a parameter list discards too: repeated in one scope, never declared
+  objrestus  |-> <<SDecl(EObj(<<Short(x), PCollect(uu)>>), EObj(<<Pair(EStr(NX), EInt(1)), Pair(EStr(NY), EInt(2))>>)), SPrint(x),
+                   SDecl(EObj(<<Short(y), PCollect(uu)>>), EObj(<<Pair(EStr(NX), EInt(3)), Pair(EStr(NY), EInt(4))>>)), SPrint(y)>>,
+  listrestus |-> <<SDecl(EPatRest(<<x, uu>>), EList(<<EInt(1), EInt(2)>>)), SPrint(x),
+                   SDecl(EPatRest(<<y, uu>>), EList(<<EInt(3), EInt(4), EInt(5)>>)), SPrint(y)>>,
+  paramrestus |-> <<SFn(F, <<x, uu>>, TRUE, <<SPrint(x), SDecl(EPatRest(<<y, uu>>), EList(<<EInt(3)>>)), SPrint(y)>>),
+                    SExpr(ECall(EVar(F), <<EInt(1), EInt(2), EInt(3)>>))>>
 ]
 \* a name declared in an enclosing scope *after* a function was created there is visible to the function when it
 \* is called later; one declared after the call is not; every enclosing scope counts, also one that was empty
